@@ -350,6 +350,16 @@ fn judge_faulty(fault: &Fault, evs: &[Ev], h3_is_server: bool, limit: u64, what:
             return false;
         }
     }
+    // a stream the peer reset instead of finishing can never be reported as a complete message:
+    // whatever the offset, the receiving calls cannot all end well (the end of the message is only
+    // known from a FIN, which never comes)
+    if let Fault::Reset { code, at } = fault {
+        let clean_end = evs.iter().rev().find(|e| recv_op(e.op)).map(|e| e.op == "recv_trailers" && matches!(e.out, Out::Trailers(_) | Out::None)).unwrap_or(false);
+        if clean_end && errs.is_empty() {
+            viol(rep, &format!("reset-not-reported[{:?}]", at), format!("{}: the peer reset the stream with {:#x} instead of finishing it, yet every receiving call ended well and recv_trailers reported the end of the message", what, code), case);
+            return false;
+        }
+    }
     // faults that must surface
     let must_surface = matches!(fault, Fault::Malformed { .. } | Fault::Oversized | Fault::FinBeforeHeaders);
     if must_surface && errs.is_empty() {
